@@ -241,6 +241,10 @@ def k_result(run, case, rng, work):
     for k in ("rmse", "mean", "median", "std", "min", "max", "sse"):
         v = float(values(rng, (1, ), cls)[0])
         r.stats[k] = v if rng.random() < .5 else np.float64(v)
+    if rng.random() < .15:
+        # (a statistic that is not a number: values computed from a trajectory with a NaN pose)
+        for k in (["rmse", "mean", "std", "sse"] if rng.random() < .5 else ["max"]):
+            r.stats[k] = float("nan")
     arrays = {"error_array": values(rng, (int(rng.integers(0, 300)), ), cls),
               "timestamps": stamps(rng, int(rng.integers(1, 300)), "epoch"),
               "alignment_transformation_sim3": values(rng, (4, 4), cls)}
@@ -272,6 +276,25 @@ def k_result(run, case, rng, work):
     run.check(okk, "result: statistics identical float64", case,
               "a statistic changed in the round trip: %r vs %r" % (dict(back.stats), dict(r.stats)),
               key="result:stats-lossy")
+    if u != 2:
+        # the loader evo_res uses: result files -> one DataFrame; every stored statistic is there with its value
+        from evo.tools import pandas_bridge as pb
+        dfo = contracts.outcome_of(pb.load_results_as_dataframe, [str(target)])
+        if run.check(dfo[0] == "ok", "result -> DataFrame loader returns", case, "load_results_as_dataframe raised %r" % (dfo[1], ),
+                     key="result:df-loader-raised"):
+            df = dfo[1]
+            lost = []
+            for k, v in r.stats.items():
+                try:
+                    cell = np.asarray(df.loc[("stats", k)], dtype=float).reshape(-1)
+                except KeyError:
+                    lost.append(k)
+                    continue
+                if cell.size != 1 or not same_bits(cell, [float(v)]):
+                    lost.append(k)
+            run.check(not lost, "result -> DataFrame: every statistic identical float64", case,
+                      "statistics %s are missing / changed in the DataFrame built from the saved file" % lost,
+                      key="result:df-stats-lossy")
     oka = set(back.np_arrays) == set(arrays) and all(same_bits(back.np_arrays[k], arrays[k]) for k in arrays)
     run.check(oka, "result: arrays identical float64", case, "an array changed in the round trip",
               key="result:arrays-lossy")
